@@ -508,6 +508,7 @@ struct Scanner<'a> {
     lower: std::collections::BTreeSet<String>,
     // R12: the crate's own single-rule macro_rules macros: name -> (parameter names, body text)
     crate_macros: &'a BTreeMap<String, (Vec<String>, String)>,
+    macro_into: Option<String>,
 }
 
 fn pat_idents(p: &syn::Pat, out: &mut Vec<String>) {
@@ -587,6 +588,11 @@ impl<'a> Scanner<'a> {
                 for (p, a0) in params.iter().zip(ar.iter()) {
                     let at = self.text(a0.span()).to_string();
                     text = text.replace(&format!("${}", p), &at);
+                }
+                // R12b (opt-in `macro_into=NAME`): `.into()` in the expansion is spelled `.NAME()` (a conversion to the same type: std's
+                // reflexive From impl cannot be given a specification from outside std, the shim method NAME carries it)
+                if let Some(nm2) = &self.macro_into {
+                    if text.contains(".into()") { text = text.replace(".into()", &format!(".{}()", nm2)); }
                 }
                 self.scan.rewrites.push((a, b, format!("{{ {} }}", text.trim()), "R12".into()));
                 true
@@ -1299,7 +1305,7 @@ fn main() {
                 }
                 let (bo, _) = src.range(f.block.brace_token.span.open());
                 let (bc, bc_end) = src.range(f.block.brace_token.span.close());
-                let mut sc = Scanner { src, scan: BodyScan::default(), crate_macros: &crate_macros, lower: r.attrs.get("lower").map(|x| x.split(',').map(|y| y.to_string()).collect()).unwrap_or_default() };
+                let mut sc = Scanner { src, scan: BodyScan::default(), crate_macros: &crate_macros, macro_into: r.attrs.get("macro_into").cloned(), lower: r.attrs.get("lower").map(|x| x.split(',').map(|y| y.to_string()).collect()).unwrap_or_default() };
                 sc.visit_block(f.block);
                 let scan = sc.scan;
 
@@ -1417,7 +1423,8 @@ fn main() {
                                 if s.kv.contains_key("lhs") { die(4, format!("binop cmp does not take lhs= in {}", id)); }
                                 format!("{}_{}", f, scan.cmp_kinds[n])
                             } else { f };
-                            edits.push((l.0, l.0, seq, format!("{}(", f), json!({"kind": "rewrite", "rule": "R16", "fn": id, "tags": body_tags})));
+                            // nested binary expressions can share their left edge (`a * a / m`): the prefix of the larger one goes first
+                            edits.push((l.0, l.0, 400_000usize.saturating_sub(r.1 - l.0), format!("{}(", f), json!({"kind": "rewrite", "rule": "R16", "fn": id, "tags": body_tags})));
                             seq += 1;
                             edits.push((l.1, r.0, seq, ", ".to_string(), json!({"kind": "rewrite", "rule": "R16", "fn": id, "tags": body_tags})));
                             seq += 1;
